@@ -45,7 +45,7 @@ m = {
                  "kind_free_text": "repository-specific static analysis over Python ast (stdlib only): program model with call/receiver resolution, syntax-directed abstract interpreter with bounded inlining over powersets of small abstract states, value-numbering evaluator with exact rational normal forms for formula identity, rule modules per family (sa/rules)"}],
     "checks": checks,
     "not_applicable": na,
-    "notes": "Findings on the pinned tree were triaged: genuine defects with a small safe repair are `fix:` commits in /repo (listed as `fixed` in known_findings.json), the others are `known` entries printed as KNOWN-FINDING. Seeded defects and which checks catch them: DESIGN.md section 10 and /verif/seeded.",
+    "notes": "Findings on the pinned tree were triaged: genuine defects with a small safe repair are `fix:` commits in /repo (listed as `fixed` in known_findings.json), the others are `known` entries printed as KNOWN-FINDING. 47 known findings (27 under C04, 20 under C03, each reproduced against the real code by a script under /verif/findings), 25 fix commits. Every property is claimed for the clauses named in its level text (what is NOT decided is in each level_note and in DESIGN.md section 4); no property is wholly not-applicable. Validation corpora: /verif/seeded (316 independently written, confirmed defects: all reported, 314 by the check of their own property) and /verif/benign (240 behaviour-preserving changes: 1 known false alarm, 38/r5); DESIGN.md sections 13-19 say which check reports which change and what each miss or false alarm led to.",
 }
 json.dump(m, open(os.path.join(VERIF, "MANIFEST.json"), "w"), indent=1)
 print("checks:", served, "not_applicable:", [x["property_id"] for x in na])
